@@ -8,7 +8,7 @@ cp -r /repo/elftools "$D/"
 ( cd "$D" && patch -s -p1 < "$PATCH" )
 cd /verif
 set +e
-VERIF_REPO="$D" ./check "$PROP" "$@"
+VERIF_REPO="$D" VERIF_OUT="$D/out" ./check "$PROP" "$@"
 RC=$?
 rm -rf "$D"
 echo "mutant-exit=$RC"
